@@ -9,7 +9,7 @@ import (
 	"github.com/shopspring/decimal"
 )
 
-const verifNumArgKinds = 22
+const verifNumArgKinds = 23
 
 // verifArgValue returns a value of the k-th kind; kinds 3 and 6 are symbolic
 // (an arbitrary 2-byte ASCII text, an arbitrary integer in [-100,155]);
@@ -68,6 +68,8 @@ func verifArgValue(k int) types.XValue {
 		return types.NewXNumberFromInt64(1<<63 - 1)
 	case 21:
 		return types.NewXNumber(decimal.New(1, 400))
+	case 22:
+		return types.NewXText("éé") // multi-byte characters: 2 characters, 4 bytes
 	}
 	return XFUNCTIONS["upper"]
 }
